@@ -35,6 +35,8 @@ Inductive instr :=
   | ITrackDrop (k : nat)
   | ITlsWith (k : nat) | ILazyGet (k : nat)
   | IBlockOn (a : nat) (v : N) (w : nat) | IWake (w : nat) | ITakeWaker (w : nat)
+  | IBlockOnS (a : nat) (v : N) (b1 b2 : nat)   (* block_on whose first Pending poll spawns b1, b2 with one waker each *)
+  | IWakeMine                                   (* wake() on the waker handed to this thread *)
   | IPanic
   | IExplore | IStopExploring | ISkipBranch.
 
